@@ -287,7 +287,7 @@ PairChecks(ev, t1) ==
        /\ Chk("C13", "same.table", kind = "c13" =>
                (AcceptedFrames(e0.lines) = AcceptedFrames(ev.lines) => TablesEqual(t0, t1, NoStamps)), ev, "junk")
        /\ Chk("C13", "completed", kind = "c13" => e0.ok /\ ev.ok, ev, "junk.abort")
-       /\ Mark("C13", kind = "c13" /\ Len(e0.lines) # Len(ev.lines), ev)
+       /\ Mark("C13", kind = "c13" /\ Len(e0.lines) # Len(ev.lines) /\ AcceptedFrames(e0.lines) = AcceptedFrames(ev.lines), ev)
        /\ Chk("C19", "presentation", kind = "c19" => TablesEqual(t0, t1, NoStamps), ev, ev.tag.opt)
        /\ Chk("C19", "observer", kind = "c19o" => TablesEqual(t0, t1, NoDist), ev, "O")
        /\ Chk("C19", "update.method", kind = "c19u" => TablesEqual(t0, t1, NineParams), ev, "U")
